@@ -57,6 +57,16 @@ ROUND4 = """IMPORTANT - already taken: in earlier rounds the changes listed belo
 """
 
 
+ROUND5 = """IMPORTANT - already taken: in earlier rounds the changes listed below were produced for this property. Do NOT repeat them or close variants (same line, same mechanism). This is the FIFTH round; the checks being evaluated have already been hardened against all of them, so be inventive. Go for -
+  * COMPOSITION: every single operation stays right, a composition breaks - clone of a clone, load of a saved clone, a MetaModule inside a MetaModule, a Sampler effect inside a MetaModule, a MultiCtl that targets a MetaModule's user-defined controller, a pattern attached after modules were attached into gaps, a module moved between containers (Synth -> Project), two projects built alternately;
+  * numeric edge semantics: sign extension, masks, int() vs floor, `//` and `%` on negatives, struct format characters (b/B, h/H, i/I), limits of field widths (127/128, 255/256, 32767/32768, 65535/65536, 2**31), empty / length-1 / maximal lists;
+  * helper layers many features share (rv/lib/*, rv/chunks/*, rv/_vendor/*, rv/readers/reader.py, rv/cmidmap.py, rv/container.py, rv/synth.py, rv/controller.py, rv/option.py, rv/note.py), changed so that only ONE caller's special case breaks;
+  * what the ENVIRONMENT or HISTORY looks like rather than the input: what ran earlier in the process, which classes were instantiated already, whether the object was saved / cloned / loaded before, whether an exception was raised and caught earlier, the global strictness setting, logging configuration;
+  * asymmetries between the two containers (.sunvox Project vs .sunsynth Synth) and between the reader and the writer of the same chunk.
+
+"""
+
+
 def main():
     rnd, root = sys.argv[1], sys.argv[2]
     props = [json.loads(l) for l in open(os.path.join(VERIF, "properties.jsonl"))]
@@ -66,14 +76,14 @@ def main():
         files = (p.get("anchors") or {}).get("files", [])
         txt = HEAD.format(wt=wt, pid=pid, title=p.get("title", ""), statement=p.get("statement", ""),
                           quant=(p.get("quantifier") or {}).get("text", ""), files=", ".join(map(str, files)))
-        txt += ROUND4
+        txt += ROUND5 if rnd == "5" else ROUND4
         k = 0
         for d in sorted(glob.glob(os.path.join(VERIF, "seeded", pid + "-*"))):
             nf = os.path.join(d, "notes.md")
             if not os.path.exists(nf):
                 continue
             k += 1
-            txt += "--- earlier change %d ---\n%s\n\n" % (k, open(nf).read().strip()[:450])
+            txt += "--- earlier change %d ---\n%s\n\n" % (k, open(nf).read().strip()[:380])
         os.makedirs(root, exist_ok=True)
         open("%s/%s.prompt.txt" % (root, pid), "w").write(txt)
     print("wrote %d prompts under %s" % (len(props), root))
